@@ -10,7 +10,10 @@ from vlib.runner import hyp
 
 PROPERTY = 'C14'
 LEVEL = 'fault_enumeration'
-RULE = ('Fault origin in {early listener, ordinary listener, built-in '
+RULE = ('Also: the peer resets while replies are queued and a listener '
+        'faults (clean-up must not depend on flushing); handlers of a '
+        'second Connection object never fire. '
+'Fault origin in {early listener, ordinary listener, built-in '
         'reaction (login disconnect; malformed status JSON), decoder (known '
         'id with truncated body), outgoing listener during the write loop, '
         'exit callback} raising an exception of a class drawn from '
